@@ -160,6 +160,19 @@ func runCheck(repo, verif, prop, tier, keep string, claim bool) int {
 	loadSecs := time.Since(t0).Seconds()
 
 	var problemsPre []string
+	if !claim && tier == "quick" {
+		if data, err := os.ReadFile(filepath.Join(verif, "claims", prop+".json")); err == nil {
+			pre := &Claims{}
+			if json.Unmarshal(data, pre) == nil {
+				ff := loadFindings(verif)
+				for n := range pre.NotOwned {
+					if matchFinding(ff, prop, n) == nil {
+						dontCare[n] = true
+					}
+				}
+			}
+		}
+	}
 	// ---- encode and discharge, in parallel over functions
 	runs := make([]*funcRun, len(ps.Funcs))
 	var wg sync.WaitGroup
